@@ -902,7 +902,11 @@ impl Env for Sim {
         if tid().is_some() {
             // "<file>:<line>" = statement-level point inserted by the
             // instrumenter; only some runs use them (swarm)
-            if name.contains(':') {
+            if name.starts_with("loop:") {
+                // loop heads are always honoured: a spin-wait must never keep
+                // the baton
+                self.yield_point("loop", crate::rng::Fnv::hash_str(name));
+            } else if name.contains(':') {
                 if !self.stmt_points_on() {
                     return;
                 }
